@@ -33,6 +33,25 @@ def h_direct():
     return lsl.GraphBuilder().add(y).build_model(), spec, ["mu", "y"]
 
 
+def h_named():
+    """as `direct`, but the distribution nodes carry user-chosen names (a variable can be skipped by its distribution node's name)"""
+    import liesel.model as lsl
+    h = _hp(mu_loc=3.0, mu_scale=2.0, y_scale=0.5)
+    mu = lsl.Var(0.0, lsl.Dist(tfd().Normal, loc=h["mu_loc"], scale=h["mu_scale"], _name="mu_prior"), name="mu")
+    y = lsl.Var(jnp.zeros(2), lsl.Dist(tfd().Normal, loc=mu, scale=h["y_scale"], _name="lik"), name="y")
+    spec = {"mu": ((), lambda v: v["mu_loc"], lambda v: v["mu_scale"]), "y": ((2,), lambda v: v["mu"], lambda v: v["y_scale"])}
+    return lsl.GraphBuilder().add(y).build_model(), spec, ["mu", "y"]
+
+
+ALIASES = {"mu_prior": "mu", "lik": "y"}      # user-chosen distribution-node names -> variable
+
+
+def is_skipped(var, skip):
+    """a variable is skipped if its name, the name of its distribution node (default `<name>_log_prob` or user-chosen) or of the node
+    the distribution is evaluated at (the variable's value proxy `<name>_var_value`) is listed; the plain value node's name is not a documented way to skip"""
+    return any(s in (var, f"{var}_log_prob", f"{var}_var_value") or ALIASES.get(s) == var for s in skip)
+
+
 def h_calc():
     import liesel.model as lsl
     h = _hp(mu_loc=3.0, mu_scale=2.0, y_scale=0.5)
@@ -80,7 +99,7 @@ def h_twolevel():
     return lsl.GraphBuilder().add(c).build_model(), spec, ["a", "b", "c"]
 
 
-FAMILY = {"direct": h_direct, "via-calc": h_calc, "diamond": h_diamond, "per_obs=False": h_perobs, "two-level+matrix": h_twolevel}
+FAMILY = {"direct": h_direct, "user-named dist nodes": h_named, "via-calc": h_calc, "diamond": h_diamond, "per_obs=False": h_perobs, "two-level+matrix": h_twolevel}
 
 
 def scenario(chk, hname, auto, skip):
@@ -139,9 +158,7 @@ def obligations(enc, spec, order, sst, tag, skip):
         return {k[:-6]: (cells(a)[0] if np.shape(a) == () else a) for k, a in out.items() if k.endswith("_value")}
 
     def skipped(var):
-        """a variable is skipped if its name, the name of its distribution node or of the node the distribution is evaluated at
-        (the variable's value proxy `<name>_var_value`) is listed; the plain value node's name is not a documented way to skip"""
-        return var in skip or f"{var}_log_prob" in skip or f"{var}_var_value" in skip
+        return is_skipped(var, skip)
 
     for var in order:
         shape, loc, scale = spec[var]
@@ -182,7 +199,7 @@ def structural(chk, enc, spec, sst, tag, skip):
     keys = [repr(k) for d in enc.I.draws for k in d["keys"]]
     if len(set(keys)) != len(keys):
         chk.violation(f"{tag}:keys", f"simulate[{tag}]: two variables are drawn with the same PRNG key", dict(reproduced=True, note=str(keys)))
-    n_expected = sum(1 for v in spec if not (v in skip or f"{v}_log_prob" in skip or f"{v}_var_value" in skip))
+    n_expected = sum(1 for v in spec if not is_skipped(v, skip))
     if len(keys) != n_expected:
         chk.harness_error(f"{tag}:draw-count", f"expected {n_expected} sampler calls, trace has {len(keys)}")
     for k in keys:
@@ -194,12 +211,15 @@ def main():
     chk = Check("C17")
     if chk.tier == "quick":
         plan = [("direct", True, ()), ("via-calc", False, ()), ("via-calc", True, ()), ("diamond", False, ()), ("diamond", True, ("m",)),
-                ("per_obs=False", False, ()), ("two-level+matrix", False, ("a",)), ("direct", False, ("mu_log_prob",)), ("via-calc", False, ("y_var_value",))]
+                ("per_obs=False", False, ()), ("two-level+matrix", False, ("a",)), ("direct", False, ("mu_log_prob",)), ("via-calc", False, ("y_var_value",)),
+                ("user-named dist nodes", True, ("mu_prior",)), ("user-named dist nodes", False, ("lik",))]
     else:
         plan = []
         for h in FAMILY:
             vars_ = FAMILY[h]()[2]
             skips = [()] + [(v,) for v in vars_[:-1]] + [(vars_[-1],)] + [(f"{vars_[0]}_log_prob",), (f"{vars_[-1]}_var_value",)]
+            if h == "user-named dist nodes":
+                skips = [("mu_prior",), ("lik",), ("mu_prior", "lik"), ("y_var_value",), ("mu",)]     # `<var>_log_prob` is not a node name here
             for auto in (True, False):
                 for sk in skips:
                     plan.append((h, auto, sk))
